@@ -1,11 +1,11 @@
 SPECIFICATION Spec
 CONSTANTS
   Conns = {1, 2}
-  Nodes = {1, 2, 3}
+  Nodes = {1, 2}
   MaxReq = 2
   ChildrenMayFail = TRUE
-  ErrorCompletesParent = FALSE
-  SessCap = 2
+  ErrorCompletesParent = TRUE
+  SessCap = 1
 INVARIANTS ReplyOrder OnlyComplete NeverAhead ParentOnce WrittenComplete
 PROPERTIES AllAnswered
 CHECK_DEADLOCK FALSE
